@@ -517,6 +517,8 @@ def concretize_tree(blocks, model):
         if 'lv' in b:
             lv = b['lv']
             d['lv'] = lv if isinstance(lv, int) else int(model.get(str(lv), 1))
+        if 'lr' in b:
+            d['lr'] = list(b['lr'])
         if 'c' in b:
             d['c'] = concretize_tree(b['c'], model)
         if 'items' in b:
